@@ -1,71 +1,10 @@
-// Command verif runs the property checks: verif check <ID> [quick|thorough] | replay <file> | worker … | list
+// Command verif runs the property checks:
+//
+//	verif check <ID> [quick|thorough] | replay <file> | list   (worker … is internal)
+//
+// The reg_cNN.go files next to this one register the individual property checks.
 package main
 
-import (
-	"fmt"
-	"os"
-	"sort"
-	"strconv"
-	"time"
+import "verif/internal/fw"
 
-	"verif/internal/fw"
-	"verif/internal/props/c01"
-)
-
-func registry() map[string]*fw.Property {
-	m := map[string]*fw.Property{}
-	for _, p := range []*fw.Property{
-		c01.Prop(),
-	} {
-		m[p.ID] = p
-	}
-	return m
-}
-
-func main() {
-	if len(os.Args) < 2 {
-		fmt.Fprintln(os.Stderr, "usage: verif check <ID> [quick|thorough] | replay <file> | list")
-		os.Exit(2)
-	}
-	props := registry()
-	switch os.Args[1] {
-	case "list":
-		var ids []string
-		for id := range props {
-			ids = append(ids, id)
-		}
-		sort.Strings(ids)
-		for _, id := range ids {
-			fmt.Println(id)
-		}
-	case "check":
-		if len(os.Args) < 3 {
-			os.Exit(2)
-		}
-		p := props[os.Args[2]]
-		if p == nil {
-			fmt.Fprintln(os.Stderr, "unknown property", os.Args[2])
-			os.Exit(2)
-		}
-		tier := "quick"
-		if len(os.Args) > 3 {
-			tier = os.Args[3]
-		}
-		if t := os.Getenv("VERIF_TIER"); t != "" && len(os.Args) <= 3 {
-			tier = t
-		}
-		os.Exit(fw.RunCheck(p, tier))
-	case "replay":
-		os.Exit(fw.Replay(props, os.Args[2]))
-	case "worker":
-		// worker ID tier shard n out deadlineUnixNano hangS
-		p := props[os.Args[2]]
-		shard, _ := strconv.Atoi(os.Args[4])
-		n, _ := strconv.Atoi(os.Args[5])
-		dl, _ := strconv.ParseInt(os.Args[7], 10, 64)
-		hang, _ := strconv.Atoi(os.Args[8])
-		fw.Worker(p, os.Args[3], shard, n, os.Args[6], time.Unix(0, dl), time.Duration(hang)*time.Second)
-	default:
-		os.Exit(2)
-	}
-}
+func main() { fw.Main() }
